@@ -16,6 +16,7 @@ from typing import Any, Dict, Optional, Tuple
 # PERFORMANCE: Use fast JSON implementation (orjson if available, stdlib json fallback)
 from chuk_mcp.protocol import fast_json as json
 
+import anyio
 import httpx
 from anyio.streams.memory import MemoryObjectReceiveStream, MemoryObjectSendStream
 
@@ -126,22 +127,35 @@ class SSETransport(Transport):
             # Wait for SSE connection to establish
             try:
                 await asyncio.wait_for(self._connected.wait(), timeout=self.timeout)
-                logger.info(f"SSE connection established to {self.base_url}")
-                return self
-
             except asyncio.TimeoutError:
                 logger.error(f"Timeout waiting for SSE connection to {self.base_url}")
-                await self._cleanup()
                 raise RuntimeError("Timeout waiting for SSE connection")
 
-        except Exception as e:
+            # The connected event is also set when the SSE task ends (error status,
+            # connection failure, stream closed): without an announced message
+            # endpoint there is no connection to hand out.
+            if not self._message_url:
+                raise RuntimeError(
+                    f"SSE connection to {self.base_url} failed: "
+                    "server did not announce a message endpoint"
+                )
+
+            logger.info(f"SSE connection established to {self.base_url}")
+            return self
+
+        except BaseException as e:
+            # Also on cancellation: do not leave tasks and HTTP clients behind
             logger.error(f"Error in SSE transport __aenter__: {e}")
-            await self._cleanup()
+            with anyio.CancelScope(shield=True):
+                await self._cleanup()
             raise
 
     async def __aexit__(self, exc_type, exc_val, exc_tb):
         """Exit async context and cleanup."""
-        await self._cleanup()
+        # Shielded: when the context is left under cancellation the first await
+        # of the cleanup would otherwise be cancelled and leak tasks and clients
+        with anyio.CancelScope(shield=True):
+            await self._cleanup()
         return False
 
     async def _cleanup(self):
@@ -430,6 +444,7 @@ class SSETransport(Transport):
 
             if message_id is not None:
                 # Request - setup for response handling
+                request_id = message_id  # echoed in synthesised errors with its JSON type
                 message_id = str(message_id)
                 future: asyncio.Future[Dict[str, Any]] = asyncio.Future()
                 async with self._message_lock:
@@ -479,7 +494,7 @@ class SSETransport(Transport):
                             # Send timeout error
                             error_response = {
                                 "jsonrpc": "2.0",
-                                "id": message_id,
+                                "id": request_id,
                                 "error": {"code": -32000, "message": "Request timeout"},
                             }
                             await self._route_incoming_message(error_response)
@@ -498,7 +513,7 @@ class SSETransport(Transport):
                             # Send error response
                             error_response = {
                                 "jsonrpc": "2.0",
-                                "id": message_id,
+                                "id": request_id,
                                 "error": {
                                     "code": -32603,
                                     "message": f"HTTP {response.status_code}: {response.text[:100]}",
@@ -511,7 +526,7 @@ class SSETransport(Transport):
                     # Send error response
                     error_response = {
                         "jsonrpc": "2.0",
-                        "id": message_id,
+                        "id": request_id,
                         "error": {"code": -32603, "message": str(e)},
                     }
                     await self._route_incoming_message(error_response)
